@@ -169,4 +169,95 @@ theorem honest_runHistory (items : List (Item N)) (hk : KeyInj cfg items) (specs
     · rw [e]; exact h1
     · exact ih _ h1 r hr
 
+/-! ### the registry and the master file only name items of the work list -/
+
+def RegWithin (items : List (Item N)) (st : St N K W) : Prop :=
+  (∀ x ∈ st.regS, ∃ it ∈ items, x = it.s) ∧ (∀ x ∈ st.regD, ∃ it ∈ items, x = it.d) ∧
+  (∀ ms md, st.master = some (ms, md) →
+    (∀ x ∈ ms, ∃ it ∈ items, x = it.s) ∧ (∀ x ∈ md, ∃ it ∈ items, x = it.d))
+
+theorem regWithin_register (items : List (Item N)) (a : Item N) (ha : a ∈ items) (st : St N K W)
+    (h : RegWithin items st) (st' : St N K W) (e1 : st'.regS = addNew a.s st.regS)
+    (e2 : st'.regD = addNew a.d st.regD) (e3 : st'.master = st.master) : RegWithin items st' := by
+  refine ⟨?_, ?_, ?_⟩
+  · intro x hx; rw [e1, mem_addNew] at hx
+    rcases hx with rfl | hx
+    · exact ⟨a, ha, rfl⟩
+    · exact h.1 x hx
+  · intro x hx; rw [e2, mem_addNew] at hx
+    rcases hx with rfl | hx
+    · exact ⟨a, ha, rfl⟩
+    · exact h.2.1 x hx
+  · intro ms md hm; rw [e3] at hm; exact h.2.2 ms md hm
+
+theorem regWithin_runItems (items : List (Item N)) (r : Run N K W) (h : RegWithin items r.st) :
+    RegWithin items (runItems cfg L o fail items r).st := by
+  apply runItems_st cfg L o fail (RegWithin items) items _ _ _ r h
+  · intro a ha st hst; exact regWithin_register items a ha st hst _ rfl rfl rfl
+  · intro a ha _ _ st hst; exact regWithin_register items a ha st hst _ rfl rfl rfl
+  · intro a ha p _ st hst; exact regWithin_register items a ha st hst _ rfl rfl rfl
+
+theorem regWithin_save (items : List (Item N)) (st : St N K W) (h : RegWithin items st) :
+    RegWithin items (save cfg st) := by
+  unfold save
+  split
+  · cases hm : st.master with
+    | none =>
+      refine ⟨h.1, h.2.1, ?_⟩
+      intro ms md e
+      simp only [Option.some.injEq, Prod.mk.injEq] at e
+      obtain ⟨rfl, rfl⟩ := e
+      exact ⟨h.1, h.2.1⟩
+    | some m =>
+      obtain ⟨ms, md⟩ := m
+      have hm' := h.2.2 ms md hm
+      have hS : ∀ x ∈ dedup (st.regS ++ ms), ∃ it ∈ items, x = it.s := by
+        intro x hx
+        rcases List.mem_append.1 ((mem_dedup _ _).1 hx) with hx | hx
+        · exact h.1 x hx
+        · exact hm'.1 x hx
+      have hD : ∀ x ∈ dedup (st.regD ++ md), ∃ it ∈ items, x = it.d := by
+        intro x hx
+        rcases List.mem_append.1 ((mem_dedup _ _).1 hx) with hx | hx
+        · exact h.2.1 x hx
+        · exact hm'.2 x hx
+      refine ⟨hS, hD, ?_⟩
+      intro ms' md' e
+      simp only [Option.some.injEq, Prod.mk.injEq] at e
+      obtain ⟨rfl, rfl⟩ := e
+      exact ⟨hS, hD⟩
+  · exact h
+
+theorem regWithin_fitPredict (items : List (Item N)) (st : St N K W) (h : RegWithin items st) :
+    RegWithin items (fitPredict cfg L o fail items st).st := by
+  by_cases ho : Valid o
+  · rw [fitPredict_valid cfg L o fail ho]
+    have h1 := regWithin_runItems cfg L o fail items (Run.start st) h
+    unfold finish
+    split
+    · exact h1
+    · exact regWithin_save cfg items _ h1
+  · rw [fitPredict_invalid cfg L o fail ho]; exact h
+
+theorem regWithin_freshObj (items : List (Item N)) (st : St N K W) (h : RegWithin items st) :
+    RegWithin items (freshObj cfg st) := by
+  unfold freshObj
+  split
+  · exact ⟨fun x hx => by simp at hx, fun x hx => by simp at hx, h.2.2⟩
+  · exact ⟨fun x hx => by simp [St.empty] at hx, fun x hx => by simp [St.empty] at hx,
+           fun ms md e => by simp [St.empty] at e⟩
+
+theorem regWithin_stateAfter (items : List (Item N)) (specs : List RunSpec) (st : St N K W)
+    (h : RegWithin items st) : RegWithin items (stateAfter cfg L items st specs) := by
+  induction specs generalizing st with
+  | nil => exact h
+  | cons a t ih =>
+    unfold stateAfter
+    rw [List.foldl_cons]
+    apply ih
+    unfold runOne
+    split
+    · exact regWithin_fitPredict cfg L a.o a.fail items _ (regWithin_freshObj cfg items st h)
+    · exact regWithin_fitPredict cfg L a.o a.fail items _ h
+
 end SkVerif.Orch.Lem
